@@ -205,7 +205,16 @@ func VH_C10(ci, variant, n, B int) {
 	}
 	tk, k := vLit("K", vC10KMin[c.expr], 1, c.kalpha)
 	tv, v := vLit("V", c.vmin, c.vmax, alpha)
-	st := vNewStoreFrom([][]byte{[]byte("a")}, [][]byte{[]byte("x")})
+	// n rows: with n > B the same constant call is evaluated for several chunks
+	if n < 1 {
+		n = 1
+	}
+	rk := make([][]byte, n)
+	rv := make([][]byte, n)
+	for i := 0; i < n; i++ {
+		rk[i], rv[i] = []byte{byte('a' + i)}, []byte("x")
+	}
+	st := vNewStoreFrom(rk, rv)
 	q := "select key, " + vSubst(c.expr, tk, tv) + " where key >= ''"
 	for mode := 0; mode < 2; mode++ {
 		p, err := NewOptimizer(q).BuildPlan(st.clone())
@@ -216,9 +225,9 @@ func VH_C10(ci, variant, n, B int) {
 		vAssert(err == nil, "C10/statement-rejected")
 		var r vRows
 		if mode == 0 {
-			r = vDrainNext(p, 2)
+			r = vDrainNext(p, n+1)
 		} else {
-			r = vDrainBatch(p, 2)
+			r = vDrainBatch(p, n+1)
 		}
 		if c.kind == c10Error {
 			vAssert(r.err != nil, "C10/vectors-of-different-lengths-not-refused")
@@ -226,8 +235,10 @@ func VH_C10(ci, variant, n, B int) {
 			continue
 		}
 		vAssert(r.err == nil, "C10/evaluation-fails-on-documented-arguments")
-		vAssert(len(r.rows) == 1 && len(r.rows[0]) == 2, "harness/C10-row-count")
-		vAssert(vC10Matches(c, r.rows[0][1], k, v), "C10/function-value-differs-from-documentation")
+		vAssert(len(r.rows) == n, "harness/C10-row-count")
+		for _, row := range r.rows {
+			vAssert(len(row) == 2 && vC10Matches(c, row[1], k, v), "C10/function-value-differs-from-documentation")
+		}
 	}
 	vCover("constant-arguments")
 }
